@@ -2,7 +2,13 @@
 (* Design check of LogThread: all interleavings of the application thread and the
    logging thread, all legal orders of init / set-threaded / start / control / log /
    fini / re-init, for small constants.  The configurations differ in `Fixes`
-   (which repairs the modelled code has) and in the ACTION_CONSTRAINTs that leave
-   out exactly the triggers of the findings not yet repaired.                   *)
+   (which repairs the modelled code has) and `Skip` (the findings whose trigger
+   step is left out):
+     LogThreadMC.cfg        the code as found, triggers of findings 11-13 left out
+     LogThreadMC_fixed.cfg  the repaired design, nothing left out
+     LogThreadMC_kf1N.cfg   the code as found with the trigger of finding 1N NOT left
+                            out: must yield the counterexample
+     LogThreadMC_live*.cfg  every call returns (qb_log_fini terminates) under weak fairness
+   vlib/checks/c16.py generates the same configurations for the repairs it detects. *)
 EXTENDS LogThread
 =============================================================================
